@@ -37,10 +37,13 @@ THEOREMS = ['C11_inverse_den', 'C11_inverse_complcell_rejects',
             'C11_parse_psem', 'C11_accepted_iff',
             'C11_nested_rejected', 'C11_psem_is_sem',
             'C11_parse_sound', 'C11_lex_sound', 'C11_get_ast_sound',
-            'C11_split_card', 'C11_card_geometry',
+            'C11_split_card', 'C11_card_geometry', 'C11_split_full',
+            'C11_split_full_like_linked',
             'C11_get_ast_accepts_iff',
             'C11_handover_no_complement', 'C11_handover_loop',
             'C11_deck_end_to_end',
+            'C11_written_dichotomy', 'C11_rejected_iff_nested',
+            'C11_get_ast2_eq_bounded',
             'C11_nested_refuted']
 TRUSTED = [
     'hand-written model coq/C11/Model.v: lexer + pushdown precedence parser '
@@ -65,8 +68,9 @@ ASSUMPTIONS = [
     'MParen nodes of the expression',
     'complement of a lattice cell: the code returns an empty intersection; '
     'tied and proved empty, not compared with MCNP',
-    'cell cards (split): no LIKE n BUT; material numbers written as digit '
-    'strings (float() of anything else is outside the model); in the theorem '
+    'cell cards (split): LIKE n BUT cards through C15.Model.split_like '
+    '(linked); material field read as a decimal number without exponent '
+    '(float() of 1e3, inf, nan, 1_0 is outside the model); in the theorem '
     'the density consists of digits, signs and "." (no E exponent letter) and '
     'the expression is separated from it by a blank; the regexes of '
     'cellcard.py are read as greedy scans',
@@ -147,8 +151,8 @@ def h_res(out):
     return ERR_CODE[out[1]]
 
 
-def h_str(text):
-    acc = 7
+def h_str(text, seed=7):
+    acc = seed
     for ch in text:
         acc = (acc * 131 + ord(ch)) % FP_P
     return acc
@@ -610,6 +614,125 @@ def sweep_expr(res, ref, e, text, out, origin):
     return True
 
 
+# ---- the code-shaped model (coq/C11/Regex.v), step by step -----------------
+ALPHA_X = '12-#(): .^_*'       # MCNP alphabet + the private characters
+ALPHA_XQ = '1-#(): ^_*'        # quick tier: without the passive '2' and '.'
+ALPHA_P = '12-+.():*^_'        # what normalize() hands to the PEG
+
+
+def regex_steps():
+    import MIP.geom.parsegeom as pg
+    return [
+        ('strip', lambda t: t.strip()),
+        ('re_compl_cell', lambda t: pg.re_compl_cell.sub(r' ^(\1)', t)),
+        ('re_compl_surf', lambda t: pg.re_compl_surf.sub(r' _(', t)),
+        ('re_union', lambda t: pg.re_union.sub(':', t)),
+        ('re_pareno', lambda t: pg.re_pareno.sub('(', t)),
+        ('re_parenc', lambda t: pg.re_parenc.sub(')', t)),
+        ('re_pareno_before', lambda t: pg.re_pareno_before.sub(r'\1 (', t)),
+        ('re_parenc_after', lambda t: pg.re_parenc_after.sub(r') \1', t)),
+        ('re_spaces', lambda t: pg.re_spaces.sub('*', t)),
+        ('normalize', pg.normalize),
+    ]
+
+
+def step_job(job):
+    '''fingerprints of the ten string functions on prefix + s, |s| <= n'''
+    prefix, n, alphabet = job
+    steps = regex_steps()
+    sums = [0] * len(steps)
+    for k in range(n + 1):
+        for tup in itertools.product(alphabet, repeat=k):
+            text = prefix + ''.join(tup)
+            hin = h_str(text)
+            for i, (_name, fun) in enumerate(steps):
+                sums[i] = (sums[i] + hin * h_str(fun(text), 11)) % FP_P
+    return sums
+
+
+def impl_peg(text):
+    '''the PEG of geom.ebnf + GeomSemantics on an already normalized text'''
+    import MIP.geom.parsegeom as pg
+    import tatsu.exceptions
+    from MIP.geom.semantics import GeomSemantics
+    try:
+        return ('ok', canon(pg.parser.parse(text, semantics=GeomSemantics())))
+    except tatsu.exceptions.ParseException:
+        return ('err', 'EParse')
+    except AttributeError:
+        return ('err', 'EAttribute')
+
+
+def peg_job(job):
+    import re
+    prefix, n = job
+    cell = re.compile(r'_\d')
+    total = count = 0
+    for k in range(n + 1):
+        for tup in itertools.product(ALPHA_P, repeat=k):
+            text = prefix + ''.join(tup)
+            if cell.search(text):
+                continue
+            out = impl_peg(text)
+            count += out[0] == 'ok'
+            total = (total + h_str(text) * h_res(out)) % FP_P
+    return total, count
+
+
+def run_regex_tie(res, quick, pool):
+    '''each re.sub of normalize() and the PEG against their explicit models
+    of coq/C11/Regex.v, on every short string incl. the private characters'''
+    n = 3 if quick else 4
+    alpha = ALPHA_XQ if quick else ALPHA_X
+    jobs = [(a, n, alpha) for a in alpha]
+    sums = pool.map(step_job, jobs)
+    names = [name for name, _ in regex_steps()]
+    cases = [cpair(common.cnat(k), cstr(pre), cn(sums[j][k]))
+             for j, (pre, _, _) in enumerate(jobs) for k in range(len(names))]
+    check = (f'(fun c : nat * string * N => let \'(k, p, h) := c in '
+             f'N.eqb (step_fp_on {"alphaXq" if quick else "alphaX"} k p {n}) h)')
+    bad, errs = common.run_case_files('c11_steps', HEADER, 'nat * string * N',
+                                      check, cases,
+                                      chunk=40 if quick else 10)
+    n_str = sum(len(alpha) ** k for k in range(1, n + 2))
+    res.obligation(f'tie:regex steps (strip, the eight re.sub of normalize() '
+                   f'and normalize itself vs Regex.v on all {n_str} non-empty '
+                   f'strings of length <= {n + 1} over {alpha!r})',
+                   not bad and not errs,
+                   f'differing: {[(names[i % len(names)], jobs[i // len(names)][0]) for i in bad][:6]} {errs[:1]}')
+    for idx in bad[:4]:
+        name = names[idx % len(names)]
+        res.violation('correspondence',
+                      f'regex step {name}: model and implementation differ '
+                      f'on strings starting with {jobs[idx // len(names)][0]!r}',
+                      {'theorem_or_correspondence': 'tie:regex steps',
+                       'input': {'step': name,
+                                 'prefix': jobs[idx // len(names)][0]}},
+                      found_input=False)
+    res.evaluations += n_str * len(names)
+    m = 3 if quick else 5
+    pjobs = [(a, m) for a in ALPHA_P]
+    psums = pool.map(peg_job, pjobs)
+    pcases = [cpair(cstr(pre), cn(tot)) for (pre, _), (tot, _) in
+              zip(pjobs, psums)]
+    pcheck = (f'(fun c : string * N => N.eqb (peg_fp (fst c) {m}) (snd c))')
+    bad, errs = common.run_case_files('c11_peg', HEADER, 'string * N', pcheck,
+                                      pcases, chunk=1 if not quick else 4)
+    p_str = sum(len(ALPHA_P) ** k for k in range(1, m + 2))
+    res.obligation(f'tie:peg (geom.ebnf + GeomSemantics vs Regex.peg_start on '
+                   f'all {p_str} non-empty strings of length <= {m + 1} over '
+                   f'{ALPHA_P!r}, {sum(c for _, c in psums)} accepted)',
+                   not bad and not errs,
+                   f'buckets differing: {[pjobs[i][0] for i in bad]} {errs[:1]}')
+    for idx in bad[:4]:
+        res.violation('correspondence',
+                      'PEG: model peg_start and the grammar differ on strings '
+                      f'starting with {pjobs[idx][0]!r}',
+                      {'theorem_or_correspondence': 'tie:peg',
+                       'input': {'prefix': pjobs[idx][0]}}, found_input=False)
+    res.evaluations += p_str
+
+
 class Rec:
     '''picklable stand-in for common.Result inside worker processes'''
 
@@ -664,9 +787,13 @@ def coverage_phase(res):
     with cov:
         for text, _ in CORPUS + CORPUS_KNOWN:
             impl_get_ast(text)
+        import tatsu.exceptions
         for texts, lat, target, _ in TABLE_CORPUS:
-            impl_complement(texts, set(lat), target)
-            impl_loop_abort(texts, set(lat))
+            try:
+                impl_complement(texts, set(lat), target)
+                impl_loop_abort(texts, set(lat))
+            except tatsu.exceptions.ParseException:
+                pass        # reported by the table corpus check
         impl_complement({1: '1', 2: '#9'}, set(), 2)          # KeyError
         for card in COVERAGE_CARDS:
             impl_split(card)
@@ -772,6 +899,9 @@ def run(res, tier, seed, proofs_ok):
     procs = max(1, min(8, (os.cpu_count() or 2) - 1))
     with multiprocessing.get_context('fork').Pool(procs) as pool:
         results = pool.map(exhaustive_job, jobs, chunksize=2)
+        t1 = time.time()
+        run_regex_tie(res, quick, pool)
+        timings['regex-steps+peg'] = time.time() - t1
     n_exh = {'A': len(short), 'B': 0}
     n_acc = {'A': 0, 'B': 0}
     for job, r in zip(jobs, results):
@@ -787,7 +917,7 @@ def run(res, tier, seed, proofs_ok):
             res.violation(*args, **kwargs)
         extra = res.extra.setdefault('accepted_not_wellformed_samples', [])
         extra.extend(r['samples'][:max(0, 12 - len(extra))])
-    timings['exhaustive-impl'] = time.time() - t0
+    timings['exhaustive-impl'] = time.time() - t0 - timings['regex-steps+peg']
     t0 = time.time()
     for dom, what in (('A', f'length <= {max_len} over {ALPHABET3!r}'),
                       ('B', f'length 7 over {ALPHABET!r}')):
@@ -817,6 +947,27 @@ def run(res, tier, seed, proofs_ok):
                     text = pre + ''.join(tup)
                     explicit.add(text, impl_get_ast(text),
                                  'exhaustive-bucket')
+    if not quick:
+        # the two models on the whole thorough domain (RegexProofs.v proves
+        # their equality for length <= 5; here by computation per bucket)
+        for dom, expr in (('A', f'models_agree_upto alpha3 p {max_len - 2}'),
+                          ('B', 'models_agree_exact alpha p 4')):
+            prefixes = [job[1] for job in jobs if job[3] == dom]
+            bad, errs = common.run_case_files(
+                f'c11_agree{dom}', HEADER, 'string', f'(fun p : string => {expr})',
+                [cstr(pre) for pre in prefixes], chunk=7 if dom == 'A' else 12)
+            res.obligation(f'models: get_ast2 (regex steps + PEG) = get_ast '
+                           f'(lexer + automaton) on every string of domain '
+                           f'{dom} ({n_exh[dom]} strings)', not bad and not errs,
+                           f'buckets differing: {[prefixes[i] for i in bad]} '
+                           f'{errs[:1]}')
+            for idx in bad[:3]:
+                res.violation('proof-obligation',
+                              'the two models of get_ast differ on strings '
+                              f'starting with {prefixes[idx]!r}',
+                              {'theorem_or_correspondence': 'models agree',
+                               'input': {'prefix': prefixes[idx]}},
+                              found_input=False)
     res.extra['exhaustive'] = True
     res.extra['exhaustive_domain'] = (
         f'all {n_exh["A"]} strings of length <= {max_len} over {ALPHABET3!r}'
@@ -989,6 +1140,19 @@ TABLE_CORPUS = [
 ]
 
 
+# (cells, lattice cells): AssertionError (lattice cell without a surface),
+# RecursionError (cycles), KeyError (unknown cell), AttributeError (complement
+# of a complement of a lattice cell)
+FAULT_TABLES = [
+    ({3: '1', 5: '#3', 6: '#5'}, (5,)),
+    ({1: '#2', 2: '#1 3'}, ()),
+    ({1: '1 #1', 2: '#1'}, ()),
+    ({1: '#9 2', 2: '#1'}, ()),
+    ({5: '1.1 2', 6: '#5', 7: '#6 3'}, (5,)),
+    ({5: '1 2', 6: '4 #5', 7: '#6'}, (5,)),
+]
+
+
 def gen_table(rng, facets=False):
     '''acyclic table: cell k may reference cells listed before it'''
     n_cells = rng.randint(2, 5)
@@ -1022,15 +1186,25 @@ def add_facets(rng, e):
 def run_complement(res, rng, n_tab):
     cases, meta = [], []
     loop_cases, loop_meta = [], []
-    for i in range(len(TABLE_CORPUS) + n_tab):
+    corpus = list(TABLE_CORPUS)
+    # the error branches of pot_complement, every dictionary order and target
+    # (model tie and hand-over check only)
+    for ftexts, flat in FAULT_TABLES:
+        for perm in itertools.permutations(ftexts):
+            for tgt in ftexts:
+                corpus.append(({cid: ftexts[cid] for cid in perm}, flat, tgt,
+                               None))
+    for i in range(len(corpus) + n_tab):
         expected = None
-        if i < len(TABLE_CORPUS):
+        if i < len(corpus):
             # hand-written tables: facets, '+', leading zeros, lattice cell
-            ctexts, clat, target, expected = TABLE_CORPUS[i]
+            ctexts, clat, target, expected = corpus[i]
             ids = order = list(ctexts)
-            texts, lattice, fault = dict(ctexts), set(clat), None
+            texts, lattice = dict(ctexts), set(clat)
+            fault = None if expected is not None else 'fault-corpus'
             exprs = {cid: c11_refparse.parse(t) for cid, t in texts.items()}
-            res.count('complement:corpus')
+            res.count('complement:corpus' if expected is not None
+                      else 'complement:fault-corpus')
         else:
             ids, exprs = gen_table(rng, facets=i % 3 == 0)
             lattice = {cid for cid in ids[:-1] if rng.random() < 0.1}
@@ -1052,6 +1226,19 @@ def run_complement(res, rng, n_tab):
             res.count('complement:tables-with-facets')
         if any('+' in t for t in texts.values()):
             res.count('complement:tables-with-plus-sign')
+        unparsed = {cid: impl_get_ast(t) for cid, t in texts.items()}
+        unparsed = {cid: o for cid, o in unparsed.items() if o[0] != 'ok'}
+        if unparsed:
+            # a cell of the table is rejected by get_ast (reported by the
+            # expression sweeps when it is well formed): no table to convert
+            res.count('complement:table-with-unparsable-cell')
+            if expected is not None:
+                res.violation('impl-violation',
+                              f'corpus table {texts}: cells rejected by '
+                              f'get_ast: {unparsed}',
+                              {'input': {'cells': texts, 'target': target},
+                               'observed': unparsed}, found_input=True)
+            continue
         out = impl_complement(texts, lattice, target)
         if expected is not None and out != ('ok', expected):
             res.violation('impl-violation',
@@ -1231,6 +1418,22 @@ def run_split(res, rng, texts):
                           f'implementation gives {got}',
                           {'input': {'card': card}, 'expected': want,
                            'observed': got}, found_input=True)
+    # LIKE n BUT cards (the branch modelled by C15.Model.split_like) and
+    # material fields that are not digit strings
+    for i in range(40 if len(texts) <= 300 else 400):
+        name = str(rng.randint(1, 999))
+        like = rng.choice(['like', 'LIKE', 'Like', 'liKE'])
+        but = rng.choice(['but', 'BUT', 'But'])
+        rest = rng.choice(['', ' imp:n=0', ' u=2 trcl=(1 0 0)', ' mat=3 rho=-2.7',
+                           ' imp:n=1 $ but not this', ' BUT u=3', ' *trcl=(0 0 1)'])
+        gap = ' ' * rng.choice((1, 1, 2))
+        tie(f'{name}{gap}{like} {rng.randint(1, 99)} {but}{rest}')
+        if i % 5 == 0:
+            tie(f'{name} {like} {rng.randint(1, 99)}')          # no BUT
+            tie(f'{name} {like}')                              # two fields
+        mat = rng.choice(['0.0', '0.', '.0', '-0', '+0', '1.5', '-3', '007',
+                          '3.', 'abc', '1..2', '-', '+.', '0x1'])
+        tie(f'{name} {mat} -1.0 {rng.randint(1, 9)} -{rng.randint(1, 9)} imp:n=1')
     for text in texts:
         if not text.strip():
             continue
@@ -1276,14 +1479,17 @@ def run_split(res, rng, texts):
     res.obligation(f'sweep:split (geometry of {len(texts)} cell cards = the '
                    'expression)', n_bad == 0, f'{n_bad} differ')
     bad, errs = common.run_case_files(
-        'c11_split', HEADER, 'string * res (string * string)', 'check_split',
+        'c11_split', HEADER + 'From T4V Require Import C11.ExecSplit.\n',
+        'string * res (string * string)', 'check_split_full',
         cases, chunk=300)
     res.obligation(f'tie:split ({len(cases)} cell cards incl. malformed: '
                    'cellcard.split vs Model.split_card)',
                    not bad and not errs, f'{len(bad)} disagreements {errs[:1]}')
     for idx in bad[:8]:
         card, got = meta[idx]
-        model, _ = common.coq_eval(HEADER, f'split_card {cstr(card)}')
+        model, _ = common.coq_eval(
+            HEADER + 'From T4V Require C11.LinkC15.\n',
+            f'LinkC15.split_card_full {cstr(card)}')
         res.violation('correspondence',
                       f'cellcard.split({card!r}): implementation {got}, model '
                       f'{model}',
